@@ -267,7 +267,7 @@ func (g *Generator) generateTimestampFieldUnmarshal(gf *protogen.GeneratedFile, 
 	}
 
 	gf.P("// Convert ", jsonName, " from ", format.String(), " to RFC 3339 for protojson")
-	gf.P(`if v, ok := raw["`, jsonName, `"]; ok {`)
+	gf.P(`if v, ok := raw["`, jsonName, `"]; ok && string(v) != "null" {`)
 
 	switch format {
 	case http.TimestampFormat_TIMESTAMP_FORMAT_UNIX_SECONDS:
